@@ -444,4 +444,10 @@ theorem C05_source_shapes_match_model :
 /-- the current source folds names byte-wise only, as the model's `upper` does (regenerated on every run) -/
 theorem C05_source_ascii_case : factHolds "noUnicodeCaseFolding" = true := source_ascii_case
 
+/-- **The source is the one the model was written from** (regenerated on every run): the connection loop (`serveConn`, `receive`, `dispatch`, `handleMessage`, `responseMessage`, `executeCommand`, `upperASCII`) of the current source
+have the fingerprints recorded in the model; a change to any of them means the theorems above are not shown for the code
+as it is now, until the model has been compared with it again -/
+theorem C05_source_conn_loop_is_the_modelled_one :
+    connLoopModelled.all (fun e => Generated.serverFingerprints.contains (e.1, e.2.1)) = true := source_conn_loop_is_the_modelled_one
+
 end GoRedis
